@@ -114,3 +114,40 @@ contract(HS + 'HandoverServer.serve', 'C06',
                 (HQ, 'For', 0): LoopSpec(
                     invariant=['True'], havoc={'socket.stream': Bytes(), 'socket.nsent': Int(0, None),
                                                 'socket.maxlen': Int(0, None)})})
+
+# ---------------------------------------------------------------- handover client
+HC = 'nfc.handover.client:'
+HCS = 'nfc.handover.client.HandoverClient.send_octets'
+contract(HC + 'HandoverClient.send_octets', 'C06',
+         dict(self=Obj(HC + 'HandoverClient',
+                       socket=Obj('models.snep_models:MiuSocket', _partial=False, stream=Const(b''), nsent=0, maxlen=0,
+                                  pos=0, first_reply=None, inp=Const(b''), miu=Int(1, 2175))),
+              octets=Bytes(0, None)),
+         name='C06/HandoverClient.send_octets',
+         ensures=[('O-frag.all', 'implies(result, self.socket.stream == old(octets))'),
+                  ('O-frag.prefix', 'self.socket.stream == old(octets)[0:len(self.socket.stream)]'),
+                  ('O-frag.miu', 'self.socket.maxlen <= self.socket.miu')],
+         raises={},
+         loops={(HCS, 'While', 0): LoopSpec(
+             invariant=['len(self.socket.stream) <= len(old(octets))',
+                        'self.socket.stream == old(octets)[0:len(self.socket.stream)]',
+                        'octets == old(octets)[len(self.socket.stream):]', 'self.socket.maxlen <= miu'],
+             decreases='len(octets)',
+             havoc={'_n': Int(0, None), 'self.socket.stream': 'bytes(old(octets)[0:_n])',
+                    'octets': 'old(octets)[_n:]', 'self.socket.nsent': Int(0, None),
+                    'self.socket.maxlen': Int(0, None)})})
+HCR = 'nfc.handover.client.HandoverClient.recv_octets'
+contract(HC + 'HandoverClient.recv_octets', 'C06',
+         dict(self=Obj(HC + 'HandoverClient', socket=PSOCK()), timeout=OneOf(None, Const(1.0))),
+         name='C06/HandoverClient.recv_octets', use=['C06/ndef.completeness-probe'],
+         ensures=[('O-reasm.whole', 'result is None or len(result) == 0 or '
+                                    'bytes(result) == self.socket.inp[0:self.socket.pos]'),
+                  ('O-reasm.probed', 'result is None or len(result) == 0 or '
+                                     'was_called("C06/ndef.completeness-probe")')],
+         raises={},
+         loops={(HCR, 'While', 0): LoopSpec(
+             invariant=['bytes(octets) == self.socket.inp[0:self.socket.pos]',
+                        'self.socket.pos <= len(self.socket.inp)'],
+             decreases='len(self.socket.inp) - self.socket.pos',
+             havoc={'self.socket.pos': Int(0, None), 'octets': 'bytearray(self.socket.inp[0:self.socket.pos])',
+                    'timeout': OneOf(None, Int(-100, 100)), 'started': Int(0, None)})})
